@@ -142,8 +142,15 @@ class Check:
             out.violate({"kind": "hang", "frame": res[1]}, observed={"stack_tail": res[2][-1200:], "after_s": round(res[3], 1)},
                         expected="call returns or raises within the time bound")
         else:
-            out.violate({"kind": "interpreter-died", "exit": res[1]}, observed={"dump": (res[2] or "")[-1200:]},
-                        expected="interpreter survives")
+            sig = {"kind": "interpreter-died", "exit": res[1]}
+            try:
+                # KF-60 (open, dependency): pyppmd's C decoder is not memory-safe on corrupt streams; a death while a PPMd-coded
+                # archive is being processed is marked, every other death stays an unqualified violation
+                if "ppmd" in json.dumps(case, default=repr).lower():
+                    sig["ppmd_stream"] = True
+            except Exception:
+                pass
+            out.violate(sig, observed={"dump": (res[2] or "")[-1200:]}, expected="interpreter survives")
         return out
 
     def setup(self, env):
